@@ -200,6 +200,53 @@ impl SatSolver for SimSat {
         let cfg = hub.cfg;
         let mut outcome = if cfg.policy == Policy::Cadical {
             Outcome::Budget
+        } else if cfg.policy == Policy::Steer {
+            // decided by the real CaDiCaL; which model comes back is steered by seeded assumptions
+            let mut kept: Vec<Literal> = assumptions.to_vec();
+            let mut best = self.mirror.solve_under_assumptions(&kept);
+            if let SolvingResult::Satisfiable(_) = best {
+                let nv = self.dpll.max_var;
+                for _ in 0..24 {
+                    if nv == 0 {
+                        break;
+                    }
+                    let v = hub.rng.range(1, nv) as isize;
+                    let l = Literal::from(if hub.rng.bool() { v } else { -v });
+                    kept.push(l);
+                    match self.mirror.solve_under_assumptions(&kept) {
+                        r @ SolvingResult::Satisfiable(_) => best = r,
+                        _ => {
+                            kept.pop();
+                        }
+                    }
+                    hub.steps += 1;
+                }
+            }
+            match best {
+                SolvingResult::Satisfiable(m) => {
+                    let mut v = vec![0i8; n_vars.max(self.dpll.max_var) + 1];
+                    for (i, b) in m.iter() {
+                        if i < v.len() {
+                            v[i] = match b {
+                                Some(true) => 1,
+                                Some(false) => -1,
+                                None => 0,
+                            };
+                        }
+                    }
+                    for i in 1..v.len() {
+                        if v[i] == 0 && self.dpll.is_active(i) {
+                            v[i] = -1;
+                        }
+                    }
+                    Outcome::Sat(v)
+                }
+                SolvingResult::Unsatisfiable => Outcome::Unsat,
+                SolvingResult::Unknown => {
+                    hub.harness_error = Some("mirror CaDiCaL returned Unknown".into());
+                    Outcome::Unsat
+                }
+            }
         } else {
             let mut steps = 400_000u64;
             let SatHub { rng, .. } = &mut *hub;
@@ -210,7 +257,7 @@ impl SatSolver for SimSat {
             }
             o
         };
-        let need_mirror = hub.xcheck || matches!(outcome, Outcome::Budget);
+        let need_mirror = (hub.xcheck && cfg.policy != Policy::Steer) || matches!(outcome, Outcome::Budget);
         let mirror_res = if need_mirror {
             Some(self.mirror.solve_under_assumptions(assumptions))
         } else {
